@@ -520,6 +520,7 @@ func (comp) Run(h *core.History, scratch string) *core.Result {
 	}
 
 	for i, op := range h.Ops {
+		res.Scribble() // the key buffers handed to the previous call are reused by their caller
 		a := op.Parsed()
 		var obs []string
 		before := e.cacheSnapshot()
@@ -533,7 +534,7 @@ func (comp) Run(h *core.History, scratch string) *core.Result {
 			e.stub.arm(o)
 			var err error
 			if via == 0 {
-				err = e.u.Put(k, v)
+				err = e.u.Put(res.CallerKey(k), v)
 			} else {
 				err = e.u.PutInEpoch(k, v, 7)
 			}
@@ -650,7 +651,7 @@ func (comp) Run(h *core.History, scratch string) *core.Result {
 			e.stub.arm(o)
 			var err error
 			if via == 0 {
-				err = e.u.Remove(k)
+				err = e.u.Remove(res.CallerKey(k))
 			} else {
 				err = e.u.RemoveFromCurrentEpoch(k)
 			}
